@@ -238,14 +238,21 @@ def judge_state_v2(op, g, out):
         return
     f = _split(g, "f")
     n = g.get("n", "")
+    emp = [e for e in _split(g, "emp") if e != ""]
+    # is the group present: from the names sets when the hooks expose them, else from IsEmpty()
+    if n.startswith("?") or len(n) < 9:
+        tpres = len(emp) > 0 and emp[0] == "false"
+        epres = len(emp) > 1 and emp[1] == "false"
+    else:
+        tpres, epres = "1" in n[6:9], "1" in n[9:14]
     s = _split(g, "s")
     ge = _split(g, "ge")
     enc = _split(g, "enc")
     for l in range(L + 1):
         bad = any(x == "0" for x in f[:6])
-        if l >= 1 and "1" in n[6:9] and any(x == "0" for x in f[6:9]):
+        if l >= 1 and tpres and any(x == "0" for x in f[6:9]):
             bad = True
-        if l >= 2 and "1" in n[9:14] and any(x == "0" for x in f[9:14]):
+        if l >= 2 and epres and any(x == "0" for x in f[9:14]):
             bad = True
         if not bad:
             continue
